@@ -92,6 +92,9 @@ func (b *fencedCodeBlockParser) Continue(node ast.Node, reader text.Reader, pc C
 		pos = util.FirstNonSpacePosition(line)
 		if pos < 0 {
 			pos = 0
+		} else {
+			// line starts with the segment's virtual padding, pos is an offset in the source
+			pos -= segment.Padding
 		}
 		padding = 0
 	}
